@@ -125,6 +125,10 @@ pub fn rexpr_from_wire(j: &J) -> R<RestrictedExpr> {
             RestrictedExpr::record(pairs).map_err(|e| e.to_string())
         }
         "ext" => ext_rexpr_from_wire(a),
+        // an unknown standing for a value (partial evaluation families)
+        "unknown" => Ok(RestrictedExpr::unknown(ast::Unknown::new_untyped(
+            a.get(1).and_then(|x| x.as_str()).ok_or("unknown name")?,
+        ))),
         "extcall" => {
             let f = name(a[1].as_str().ok_or("extcall fn")?)?;
             let args = a[2].as_array().ok_or("extcall args")?;
